@@ -334,6 +334,14 @@ class TaskManager(rpu.ClientComponent):
                 tasks = list()
                 for task in self._tasks.values():
 
+                    # only tasks bound to this pilot are affected, and only
+                    # if they did not reach a final state on their own
+                    if task.pilot != pid:
+                        continue
+
+                    if task.state in rps.FINAL:
+                        continue
+
                     update = {'uid'             : task.uid,
                               'exception'       : 'RuntimeError("pilot died")',
                               'exception_detail': 'pilot %s is final' % pid,
